@@ -92,6 +92,7 @@ inductive Out where
   | errComplaint               -- complaint about a share that verifies
   | errShareIndex              -- revealed share missing or not the sender's
   | errNotCertified            -- SecretCommits before the own deal is certified
+  | errRecover                 -- fewer than t distinct evaluation points (repaired: was a nil dereference)
   | panic
 deriving DecidableEq, Repr
 
@@ -192,7 +193,8 @@ def secretCommits (cfg : Cfg) (nd : Node) (cs : List Nat) : Node × Out :=
   if !Vss.certified cfg nd.dealer then (nd, .errNotCertified)
   else ({ nd with commitments := mput nd.commitments nd.me cs }, .ok)
 
-/-- `ProcessSecretCommits`. -/
+/-- `ProcessSecretCommits` (with the repair: commitments that were contested — a reveal is pending or the
+    polynomial has been reconstructed — cannot be published again). -/
 def processSecretCommits (cfg : Cfg) (nd : Node) (idx sid : Nat) (sigOk : Bool) (cs : List Nat) : Node × Out :=
   if decide (cfg.n ≤ idx) then (nd, .errIndex)
   else match qualVerifier cfg nd idx with
@@ -200,13 +202,14 @@ def processSecretCommits (cfg : Cfg) (nd : Node) (idx sid : Nat) (sigOk : Bool) 
   | some a =>
     if a.sid != some sid then (nd, .errSid)
     else if !sigOk then (nd, .errSig)
+    else if nd.reconstructed.contains idx || !((nd.pending.lookup idx).getD []).isEmpty then (nd, .errCommits)
     else match a.deal with
     | none => (nd, .panic)
     | some dl =>
       if feldmanOk cfg.q cs dl.i dl.v then ({ nd with commitments := mput nd.commitments idx cs }, .ok)
       else (nd, .complaintCommits)
 
-/-- `ProcessComplaintCommits`. -/
+/-- `ProcessComplaintCommits` (with the repair: the node's own share is recorded once). -/
 def processComplaintCommits (cfg : Cfg) (nd : Node) (issuer dealerIdx : Nat) (sigOk : Bool) (d : Deal) : Node × Out :=
   if decide (cfg.n ≤ issuer) then (nd, .errIndex)
   else if (qualVerifier cfg nd issuer).isNone then (nd, .errQual)
@@ -224,9 +227,10 @@ def processComplaintCommits (cfg : Cfg) (nd : Node) (issuer dealerIdx : Nat) (si
         else match (if Vss.certified cfg v' then v'.agg.bind (·.deal) else none) with
           | none => (nd1, .errNoDeal)
           | some own =>
+            let arr := (nd.pending.lookup dealerIdx).getD []
             ({ nd1 with commitments := mdel nd.commitments dealerIdx,
-                        pending := mput nd.pending dealerIdx
-                          ((nd.pending.lookup dealerIdx).getD [] ++ [⟨d.sid, nd.me, own.i, own.v⟩]) },
+                        pending := if arr.any (fun r => r.index == nd.me) then nd.pending
+                          else mput nd.pending dealerIdx (arr ++ [⟨d.sid, nd.me, own.i, own.v⟩]) },
              .reconstructCommits)
     | (v', o) => ({ nd with verifiers := setV nd.verifiers dealerIdx v' }, .errVss o)
 
@@ -257,7 +261,7 @@ def processReconstruct (cfg : Cfg) (nd : Node) (sid index dealerIdx : Nat) (hasS
       let arr' := arr ++ [⟨sid, index, si, sv⟩]
       if decide (nd.t ≤ arr'.length) then
         match Share.recoverPriPoly cfg.q (arr'.map (fun r => some ⟨r.si, some r.sv⟩)) nd.t with
-        | none => (nd, .panic)
+        | none => ({ nd with pending := mput nd.pending dealerIdx arr' }, .errRecover)
         | some pri =>
           ({ nd with commitments := mput nd.commitments dealerIdx (Share.commit cfg.q pri none),
                      reconstructed := nd.reconstructed ++ [dealerIdx],
